@@ -6,6 +6,10 @@
  * calls of A and rand() keeps counting across both sessions.  Every observation of A (statuses,
  * repair symbol bytes, completion after each call, decoded symbol bytes) must be identical.
  * Source data of A symbolic (same values in both runs).
+ * BMODE 0: B lives ACROSS A's calls (one step of B between every two calls of A).
+ * BMODE 1: between every two calls of A a whole encoder life and a whole decoder life of B take
+ *          place (create, configure, build one repair symbol / decode k symbols, finish, release),
+ *          so that every call of B falls into every window between two calls of A.
  */
 #include "env.h"
 #include "api_util.h"
@@ -89,12 +93,43 @@ static void b_advance(void)
 		break;
 	}
 }
+#ifndef BMODE
+#define BMODE 0
+#endif
+#if BMODE == 1
+static void b_whole_lives(void)
+{
+	of_session_t *e = NULL, *d = NULL;
+	any_params_t prm;
+	unsigned char *s[BN];
+	void *t[BN], *st[BN];
+	unsigned i;
+	for (i = 0; i < BN; i++) { s[i] = xmalloc(BLEN); memset(s[i], (int)(0x5a + i), BLEN); t[i] = s[i]; }
+	of_create_codec_instance(&e, (of_codec_id_t)BCODEC, OF_ENCODER, 1);
+	of_set_fec_parameters(e, fill_params(&prm, BCODEC, BK, BR, BLEN, BM, BN1, BSEED));
+	of_build_repair_symbol(e, t, BK);
+	of_release_codec_instance(e);
+	of_create_codec_instance(&d, (of_codec_id_t)BCODEC, OF_DECODER, 0);
+	of_set_fec_parameters(d, fill_params(&prm, BCODEC, BK, BR, BLEN, BM, BN1, BSEED));
+	for (i = 1; i <= BK; i++) of_decode_with_new_symbol(d, s[i], i);      /* source 0 missing, repair k present */
+	of_finish_decoding(d);
+	for (i = 0; i < BK; i++) st[i] = NULL;
+	if (of_get_source_symbols_tab(d, st) == OF_STATUS_OK)
+		for (i = 0; i < BK; i++) if (st[i] != NULL && st[i] != (void *)s[i]) free(st[i]);
+	of_release_codec_instance(d);
+	for (i = 0; i < BN; i++) free(s[i]);
+}
+#endif
 static void between(int interleave)
 {
 	if (!interleave) return;
 	of_seed = in_u64();
 	of_verbosity = in_u8() & 1;
+#if BMODE == 1
+	b_whole_lives();
+#else
 	b_advance();
+#endif
 }
 
 static void run_A(int interleave, obs_t *o)
